@@ -56,6 +56,53 @@ def core_escape(k, k2):
 '''
 
 
+CORE_EXTRA = '''
+import functools
+from bare_script.library import SCRIPT_FUNCTIONS
+from bare_script.value import value_compare
+from vf.hlib import c15lib, c15ref
+FPOOL = [0.5, 0.25, 0.75, 1.5, -0.125, 2]
+MIX = [0, 1, True, False, 'x', None, 1.0, '1']
+
+
+def _pick(pool, i):
+    for j in range(len(pool)):
+        if i == j:
+            return pool[j]
+    return pool[0]
+
+
+def core_sortfn(i0, i1, i2, n, scale):
+    # arraySort with a script-style compare function that returns the (fractional) difference, or a scaled sign
+    arr = [_pick(FPOOL, i0), _pick(FPOOL, i1), _pick(FPOOL, i2)][:3]
+    arr = arr if n == 3 else (arr[:2] if n == 2 else arr[:1])
+    src = list(arr)
+    k = _pick([1, 0.5, 100], scale)
+
+    def cmp(args, options):
+        return (args[0] - args[1]) * k
+    out = c15lib.call_real('arraySort', [arr, cmp])
+    want = sorted(src)
+    if out is not arr or list(out) != want:
+        return False, {{'clause': 'arraySort with a compare function must order by the sign of its result, in place', 'input': repr(src),
+                       'result': repr(out), 'expected': repr(want)}}
+    return True, {{}}
+
+
+def core_indexmix(i0, i1, i2, vi, n):
+    arr = [_pick(MIX, i0), _pick(MIX, i1), _pick(MIX, i2)]
+    arr = arr if n == 3 else (arr[:2] if n == 2 else arr[:1])
+    val = _pick(MIX, vi)
+    for name, ref in (('arrayIndexOf', c15ref.array_index_of), ('arrayLastIndexOf', c15ref.array_last_index_of)):
+        got = c15lib.call_real(name, [list(arr), val])
+        want = ref([list(arr), val])
+        if got != want or isinstance(got, bool):
+            return False, {{'clause': name + ' must find elements by the value comparison (true is not 1)', 'array': repr(arr), 'value': repr(val),
+                           'result': repr(got), 'expected': repr(want)}}
+    return True, {{}}
+'''
+
+
 def pre_for(names, tier):
     slen = 2 if tier == 'quick' else 3
     pre = ['len(e) == 5', '0 <= nA <= 3', '0 <= nB <= 2', f'len(S) <= {slen}', 'len(T) <= 1', 'len(U) <= 1',
@@ -120,6 +167,16 @@ def plan(tier, seed, workdir):
         body += hgen.harness('seq', PARAMS, pre_for(names_, tier), core_call=CALL)
         path = hgen.write_module(workdir, f'c15_{tag}', body)
         hgen.ch_tasks(p, path, 'seq', t1 if len(names_) == 1 else t1 * 2, twin_timeout=40, family=f'{len(names_)}-step', sequence=list(names_))
+    body = CORE_EXTRA.replace('{{', '{').replace('}}', '}')
+    body += hgen.harness('sortfn', 'i0: int, i1: int, i2: int, n: int, scale: int', ['0 <= i0 < 6', '0 <= i1 < 6', '0 <= i2 < 6', '1 <= n <= 3', '0 <= scale < 3'],
+                         core_call='core_sortfn(i0, i1, i2, n, scale)')
+    body += hgen.harness('indexmix', 'i0: int, i1: int, i2: int, vi: int, n: int', ['0 <= i0 < 8', '0 <= i1 < 8', '0 <= i2 < 8', '0 <= vi < 8', '1 <= n <= 3'],
+                         core_call='core_indexmix(i0, i1, i2, vi, n)')
+    path = hgen.write_module(workdir, 'c15_extra', body)
+    hgen.ch_tasks(p, path, 'sortfn', t1, family='arraySort with a compare function returning differences',
+                  enum={'i0': list(range(6)), 'i1': list(range(6)), 'i2': list(range(6)), 'n': [1, 2, 3], 'scale': [0, 1, 2]})
+    hgen.ch_tasks(p, path, 'indexmix', t1, family='arrayIndexOf / arrayLastIndexOf over arrays mixing booleans, numbers, strings, null',
+                  enum={'i0': list(range(8)), 'i1': list(range(8)), 'i2': list(range(8)), 'vi': list(range(8)), 'n': [1, 2, 3]})
     body = CORE_ESC.replace('{{', '{').replace('}}', '}')
     body += hgen.harness('escape', 'k: int, k2: int', ['0 <= k < 19', '0 <= k2 < 19'], core_call='core_escape(k, k2)')
     path = hgen.write_module(workdir, 'c15_escape', body)
